@@ -1,5 +1,5 @@
 """P-FLOW / P-DOM helpers: backward provenance of MIR locals, guard (edge) dominance."""
-import re
+import re, json
 from .prog import short, place_str
 
 TRANSPARENT = re.compile(
@@ -267,11 +267,7 @@ def guards_dominating(fn, bb, through_flags=True, _depth=2):
                 vb = _variant_value_blocks(fn, info[1]["pl"]["l"])
                 blocks = (vb or {}).get(want_v)
                 if blocks:
-                    common = None
-                    for b in blocks:
-                        gs = set(guards_dominating(fn, b, True, _depth - 1))
-                        common = gs if common is None else (common & gs)
-                    for g in sorted(common or ()):
+                    for g in _common_guards(fn, blocks, _depth):
                         if g not in res and g not in extra:
                             extra.append(g)
             continue
@@ -284,14 +280,44 @@ def guards_dominating(fn, bb, through_flags=True, _depth=2):
         blocks = vb[want]
         if not blocks:
             continue
-        common = None
-        for b in blocks:
-            gs = set(guards_dominating(fn, b, True, _depth - 1))
-            common = gs if common is None else (common & gs)
-        for g in sorted(common or ()):
+        for g in _common_guards(fn, blocks, _depth):
             if g not in res and g not in extra:
                 extra.append(g)
     return res + extra
+
+
+def _guard_meaning(fn, g):
+    """what a guard edge tests, independent of the switch block that tests it: two arms of a tuple match each test `t.1 is Some` in a
+    switch of their own"""
+    sw, lab, tgt = g
+    info = switch_info(fn, sw)
+    if not info:
+        return ("sw", sw, lab)
+    if info[0] == "discr":
+        names = {dv: n for dv, n in info[1].get("variants", [])}
+        vn = names.get(lab)
+        if vn is None and lab == "otherwise":
+            listed = [names.get(l2) for l2 in info[2] if l2 != "otherwise"]
+            rest = [n for n in names.values() if n not in listed]
+            vn = rest[0] if len(rest) == 1 else None
+        if vn is None:
+            return ("sw", sw, lab)
+        return ("discr", json.dumps(info[1]["pl"], sort_keys=True), vn)
+    return ("sw", sw, lab)
+
+
+def _common_guards(fn, blocks, _depth):
+    """guards that hold at every one of the blocks, compared by what they test"""
+    per = []
+    for b in blocks:
+        gs = guards_dominating(fn, b, True, _depth - 1)
+        per.append({_guard_meaning(fn, g): g for g in gs})
+    if not per:
+        return []
+    keys = set(per[0])
+    for m in per[1:]:
+        keys &= set(m)
+    return sorted(per[0][k] for k in keys)
 
 
 def bool_edge_polarity(fn, sw_bb, label):
